@@ -138,6 +138,9 @@ CondenseFails(ev) ==
          \cup (IF out.static # <<>> \/ out.isotope # <<>> THEN {"global_rule_left"} ELSE {})
          \cup (IF ~FWithin(ev.massIn, ev.massOut, FAdd(Micro(2), FMulInt(PrecUnit(ev.prec), Len(shifts))))
                THEN {"mass_not_preserved"} ELSE {})
+         (* independent of the library: the real mass of the input is the mass of the peptide the text denotes *)
+         \cup (IF AllResolvable(A, TRUE) /\ ~FWithin(ev.massIn, SemMass(NeutralSem(A, TRUE, FALSE), TRUE), Micro(50))
+               THEN {"mass_of_input_is_not_the_mass_of_the_peptide"} ELSE {})
          \cup (IF A = EmptyAnn(A.seq) /\ ev.res # ev.text THEN {"unmodified_peptide_changed"} ELSE {})
          \cup (IF ev.again # ev.res THEN {"second_call_on_the_same_object_differs"} ELSE {})
          \cup (IF ev.argText # ev.text THEN {"argument_object_changed"} ELSE {})
